@@ -6,24 +6,32 @@
      prims s            the list of (exponent, coefficient-row) pairs of a shell
      set_prims s ps     the shell with the same frame (l, centre, type, conventions) and primitives ps
      set_coeffs s C     ... with the coefficient matrix C;   col_shell s m   ... with column m only
-     scale_col s m k    ... with column m multiplied by k
+     scale_col s m k    ... with column m multiplied by k;   colfac m0 k m = k if m = m0, else 1
      kblock g sa sb     the two-index block built by the code's two tensordots (Model/MomentInt.block_of)
                         from a primitive kernel g alpha beta ca cb;  kentry = its defining double sum
-     nblock             the block after step 1 of the assembly (x norm_cont_a x norm_cont_b)
+     nblock / nentry    the block after step 1 of the assembly (x norm_cont_a x norm_cont_b)
+     scale_hyps s m k kabs   kabs <> 0, sqrt(k^2 x) = kabs sqrt x and sqrt x <> 0 on the self-overlaps x of column m
    All theorems quantify over the field, the shells (any K, M, l, exponents, coefficients) and, where a
    kernel g appears, over every primitive kernel; the models of _moment_int.py, _diff_operator_int.py and
-   angular_momentum.py are proved to be kernel blocks (C13_*_is_kernel_block).
+   angular_momentum.py are proved to be kernel blocks (the four .._is_kernel_block theorems), so every C13 theorem about
+   kblock / kentry / nblock holds for overlap, multipole moments, kinetic energy, momentum, angular momentum.
+   The evaluation block, the point-charge / nuclear-attraction kernel and the electron-repulsion block have
+   their own theorems (.._eval, .._one_elec / .._point_charge, .._eri).
 
-   Stated in full in the property, proved here only in part:
-     unnormalised_linear for the Boys-type kernels: see the end of this file;
-     column_scale assembled:  C13_column_scale_overlap_integral(_asymm) covers the overlap matrices for
-       positive factors; for the other kernels and for negative factors the law is proved on the
-       contraction-normalised block of every kernel (C13_column_scale, _a, _b, _positive, _negative) and on
-       normalised values at a point (C13_column_scale_eval), i.e. before the spherical transform and the
-       flattening (which act per segment).
-     generalized_is_segmented assembled: proved for evaluate_basis / evaluate_deriv_basis on a whole basis
-       (same functions in the same order); for the two- and four-index kernels it is proved as the
-       (ma, mb) slice of the shell block (the input of the segment-major flattening). *)
+   Stated in full in the property, proved here only in part (names end in _partial):
+     generalized_is_segmented, ASSEMBLED: "for every public function, the array of a basis and of the basis in
+       which every generalized shell is replaced by its single-column shells coincide".  Proved in full for
+       evaluate_basis and evaluate_deriv_basis (C13_generalized_is_segmented_basis_eval(_deriv): any basis,
+       Cartesian / spherical / mixed, with transform).  For the two-index functions it is proved for one pair of
+       Cartesian shells (the two C13_generalized_is_segmented_assembled .._partial theorems: tiles in segment-major order); for
+       spherical shells, several shells (hcat/vcat of the tiles) and the four-index assembly the statement is
+       decided by the correspondence search only.  At shell-block level (the input of the flattening) the law is
+       proved for every kernel (the C13_generalized_is_segmented theorems).
+     column_scale, ASSEMBLED: "for every public function, multiplying a column by k > 0 changes nothing and by
+       k < 0 flips the sign of that function".  Proved assembled for overlap_integral(_asymmetric) and positive
+       factors (the two C13_column_scale_assembled .._partial theorems); for every kernel, both signs, on the contraction-
+       normalised block / entries (the C13_column_scale theorems, before the spherical transform and the flattening, which
+       act per segment); assembled for the other functions: correspondence search. *)
 From Coq Require Import List Arith Permutation QArith Qcanon Reals.
 From GB Require Import Base.Field Base.FNum Base.Tables Base.Blocks Model.Shell Model.MomentInt
   Model.Spherical Model.Assembly Model.Overlap Model.DiffOp Model.OneElec Model.TwoElec Model.Eval
@@ -711,17 +719,17 @@ Theorem C13_column_scale_eval :
 Proof. exact (@eval_column_scale). Qed.
 Print Assumptions C13_column_scale_eval.
 
-(* assembled: overlap_integral is unchanged when any columns of any shells are multiplied by positive factors *)
-Theorem C13_column_scale_overlap_integral :
+(* assembled (partial: overlap matrices, positive factors): overlap_integral is unchanged when any columns of any shells are multiplied by positive factors *)
+Theorem C13_column_scale_assembled_partial :
   forall (F : Type) (K : Fops F),
   is_field K ->
   forall (basis basis' : list (shell F)) (T : option (list (list F))),
   (forall x : F, fapx K x = x) ->
   Forall2 (pos_rescaled K) basis basis' -> overlap_integral K basis' T = overlap_integral K basis T.
 Proof. exact (@overlap_integral_scale_pos). Qed.
-Print Assumptions C13_column_scale_overlap_integral.
+Print Assumptions C13_column_scale_assembled_partial.
 
-Theorem C13_column_scale_overlap_integral_asymm :
+Theorem C13_column_scale_assembled_asymm_partial :
   forall (F : Type) (K : Fops F),
   is_field K ->
   forall (b1 b1' b2 b2' : list (shell F)) (T1 T2 : option (list (list F))),
@@ -730,7 +738,371 @@ Theorem C13_column_scale_overlap_integral_asymm :
   Forall2 (pos_rescaled K) b2 b2' ->
   overlap_integral_asymm K b1' b2' T1 T2 = overlap_integral_asymm K b1 b2 T1 T2.
 Proof. exact (@overlap_integral_asymm_scale_pos). Qed.
-Print Assumptions C13_column_scale_overlap_integral_asymm.
+Print Assumptions C13_column_scale_assembled_asymm_partial.
+
+(* assembled, two-index (partial: Cartesian shells, one pair of shells): the processed block (norm_cont applied, flattened) of two generalized shells is the matrix of the processed blocks of their single-column shells, tiles in segment-major order; any frame kernel G *)
+Theorem C13_generalized_is_segmented_assembled_two_index_partial :
+  forall (F : Type) (K : Fops F) (G : shell F -> shell F -> F -> F -> comp -> comp -> F)
+  (sa sb : shell F),
+  s_sph sa = false ->
+  s_sph sb = false ->
+  (forall ma mb : nat, G (col_shell K sa ma) (col_shell K sb mb) = G sa sb) ->
+  pblock K (f0 K) (fadd K) (fmul K) (kblockf K G) (prep K sa) (prep K sb) =
+  concat
+  (mk (nseg sa)
+  (fun ma : nat =>
+  mk (ncomp sa)
+  (fun ia : nat =>
+  concat
+  (mk (nseg sb)
+  (fun mb : nat =>
+  nth ia
+  (pblock K (f0 K) (fadd K) (fmul K) (kblockf K G) (prep K (col_shell K sa ma))
+  (prep K (col_shell K sb mb))) []))))).
+Proof. exact (@pblock_segment_major_cart). Qed.
+Print Assumptions C13_generalized_is_segmented_assembled_two_index_partial.
+
+Theorem C13_generalized_is_segmented_assembled_overlap_partial :
+  forall (F : Type) (K : Fops F) (sa sb : shell F),
+  s_sph sa = false ->
+  s_sph sb = false ->
+  pblock K (f0 K) (fadd K) (fmul K) (overlap_block K) (prep K sa) (prep K sb) =
+  concat
+  (mk (nseg sa)
+  (fun ma : nat =>
+  mk (ncomp sa)
+  (fun ia : nat =>
+  concat
+  (mk (nseg sb)
+  (fun mb : nat =>
+  nth ia
+  (pblock K (f0 K) (fadd K) (fmul K) (overlap_block K)
+  (prep K (col_shell K sa ma)) (prep K (col_shell K sb mb))) []))))).
+Proof. exact (@overlap_pblock_segment_major_cart). Qed.
+Print Assumptions C13_generalized_is_segmented_assembled_overlap_partial.
+
+(* 4. for the one-electron Boys kernel: linear through the horizontal recursion *)
+Theorem C13_unnormalised_linear_one_elec_add_a :
+  forall (F : Type) (K : Fops F),
+  is_field K ->
+  forall (Cx Cy Cz : F) (sa sb : shell F) (C1 C2 : list (list F)) (ma ia mb ib : nat),
+  same_shape C1 C2 ->
+  (ma < nseg (set_coeffs sa C1))%nat ->
+  (ia < ncomp sa)%nat ->
+  (mb < nseg sb)%nat ->
+  (ib < ncomp sb)%nat ->
+  nth4' K ma ia mb ib (one_elec_point K Cx Cy Cz (set_coeffs sa (rows_add K C1 C2)) sb) =
+  fadd K (nth4' K ma ia mb ib (one_elec_point K Cx Cy Cz (set_coeffs sa C1) sb))
+  (nth4' K ma ia mb ib (one_elec_point K Cx Cy Cz (set_coeffs sa C2) sb)).
+Proof. exact (@oe_unnormalised_additive_a). Qed.
+Print Assumptions C13_unnormalised_linear_one_elec_add_a.
+
+Theorem C13_unnormalised_linear_one_elec_scale_a :
+  forall (F : Type) (K : Fops F),
+  is_field K ->
+  forall (Cx Cy Cz : F) (sa sb : shell F) (k : F) (C : list (list F)) (ma ia mb ib : nat),
+  (ma < nseg (set_coeffs sa C))%nat ->
+  (ia < ncomp sa)%nat ->
+  (mb < nseg sb)%nat ->
+  (ib < ncomp sb)%nat ->
+  nth4' K ma ia mb ib (one_elec_point K Cx Cy Cz (set_coeffs sa (rows_scale K k C)) sb) =
+  fmul K k (nth4' K ma ia mb ib (one_elec_point K Cx Cy Cz (set_coeffs sa C) sb)).
+Proof. exact (@oe_unnormalised_homogeneous_a). Qed.
+Print Assumptions C13_unnormalised_linear_one_elec_scale_a.
+
+Theorem C13_unnormalised_linear_one_elec_add_b :
+  forall (F : Type) (K : Fops F),
+  is_field K ->
+  forall (Cx Cy Cz : F) (sa sb : shell F) (C1 C2 : list (list F)) (ma ia mb ib : nat),
+  same_shape C1 C2 ->
+  (ma < nseg sa)%nat ->
+  (ia < ncomp sa)%nat ->
+  (mb < nseg (set_coeffs sb C1))%nat ->
+  (ib < ncomp sb)%nat ->
+  nth4' K ma ia mb ib (one_elec_point K Cx Cy Cz sa (set_coeffs sb (rows_add K C1 C2))) =
+  fadd K (nth4' K ma ia mb ib (one_elec_point K Cx Cy Cz sa (set_coeffs sb C1)))
+  (nth4' K ma ia mb ib (one_elec_point K Cx Cy Cz sa (set_coeffs sb C2))).
+Proof. exact (@oe_unnormalised_additive_b). Qed.
+Print Assumptions C13_unnormalised_linear_one_elec_add_b.
+
+Theorem C13_unnormalised_linear_one_elec_scale_b :
+  forall (F : Type) (K : Fops F),
+  is_field K ->
+  forall (Cx Cy Cz : F) (sa sb : shell F) (k : F) (C : list (list F)) (ma ia mb ib : nat),
+  (ma < nseg sa)%nat ->
+  (ia < ncomp sa)%nat ->
+  (mb < nseg (set_coeffs sb C))%nat ->
+  (ib < ncomp sb)%nat ->
+  nth4' K ma ia mb ib (one_elec_point K Cx Cy Cz sa (set_coeffs sb (rows_scale K k C))) =
+  fmul K k (nth4' K ma ia mb ib (one_elec_point K Cx Cy Cz sa (set_coeffs sb C))).
+Proof. exact (@oe_unnormalised_homogeneous_b). Qed.
+Print Assumptions C13_unnormalised_linear_one_elec_scale_b.
+
+(* PointChargeIntegral block entries are -q x (possibly transposed) one-electron entries *)
+Theorem C13_point_charge_entry :
+  forall (F : Type) (K : Fops F) (points : list (F * F * F * F)) (sa sb : shell F)
+  (ma ia mb ib : nat),
+  (ma < nseg sa)%nat ->
+  (ia < ncomp sa)%nat ->
+  (mb < nseg sb)%nat ->
+  (ib < ncomp sb)%nat ->
+  nth ib (nth mb (nth ia (nth ma (point_charge_block K points sa sb) []) []) []) [] =
+  map
+  (fun '(cx, cy, cz, q) =>
+  fmul K (fopp K q)
+  (if s_l sa <? s_l sb
+  then nth4' K mb ib ma ia (one_elec_point K cx cy cz sb sa)
+  else nth4' K ma ia mb ib (one_elec_point K cx cy cz sa sb))) points.
+Proof. exact (@pc_block_entry). Qed.
+Print Assumptions C13_point_charge_entry.
+
+(* 4. for the electron-repulsion block: a coefficient matrix whose contraction sums are c1 x (those of C1) + c2 x (those of C2) gives c1 x block(C1) + c2 x block(C2); C1 + C2 and k C1 are such matrices *)
+Theorem C13_sum_lin_add :
+  forall (F : Type) (K : Fops F),
+  is_field K ->
+  forall (m : nat) (es : list F) (C1 C2 : list (list F)),
+  same_shape C1 C2 ->
+  sum_lin K m (f1 K) (f1 K) (combine es (rows_add K C1 C2)) (combine es C1) (combine es C2).
+Proof. exact (@sum_lin_add). Qed.
+Print Assumptions C13_sum_lin_add.
+
+Theorem C13_sum_lin_scale :
+  forall (F : Type) (K : Fops F),
+  is_field K ->
+  forall (m : nat) (es : list F) (k : F) (C : list (list F)),
+  sum_lin K m k (f0 K) (combine es (rows_scale K k C)) (combine es C) (combine es C).
+Proof. exact (@sum_lin_scale). Qed.
+Print Assumptions C13_sum_lin_scale.
+
+Theorem C13_sum_lin_scale_col :
+  forall (F : Type) (K : Fops F),
+  is_field K ->
+  forall (m : nat) (es : list F) (m0 : nat) (k : F) (C : list (list F)),
+  sum_lin K m (colfac K m0 k m) (f0 K) (combine es (scale_col_rows K m0 k C))
+  (combine es C) (combine es C).
+Proof. exact (@sum_lin_scale_col). Qed.
+Print Assumptions C13_sum_lin_scale_col.
+
+Theorem C13_unnormalised_linear_eri_1 :
+  forall (F : Type) (K : Fops F),
+  is_field K ->
+  forall (s1 s2 s3 s4 : shell F) (C C1 C2 : list (list F)) (c1 c2 : F)
+  (m1 i1 m2 i2 m3 i3 m4 i4 : nat),
+  (i1 < ncomp s1)%nat ->
+  (i2 < ncomp s2)%nat ->
+  (i3 < ncomp s3)%nat ->
+  (i4 < ncomp s4)%nat ->
+  sum_lin K m1 c1 c2 (combine (s_exps s1) C) (combine (s_exps s1) C1) (combine (s_exps s1) C2) ->
+  nseg (set_coeffs s1 C1) = nseg (set_coeffs s1 C) ->
+  nseg (set_coeffs s1 C2) = nseg (set_coeffs s1 C) ->
+  (m1 < nseg (set_coeffs s1 C))%nat ->
+  (m2 < nseg s2)%nat ->
+  (m3 < nseg s3)%nat ->
+  (m4 < nseg s4)%nat ->
+  nth8 K m1 i1 m2 i2 m3 i3 m4 i4 (eri_block K (set_coeffs s1 C) s2 s3 s4) =
+  fadd K (fmul K c1 (nth8 K m1 i1 m2 i2 m3 i3 m4 i4 (eri_block K (set_coeffs s1 C1) s2 s3 s4)))
+  (fmul K c2 (nth8 K m1 i1 m2 i2 m3 i3 m4 i4 (eri_block K (set_coeffs s1 C2) s2 s3 s4))).
+Proof. exact (@eri_block_lin_1). Qed.
+Print Assumptions C13_unnormalised_linear_eri_1.
+
+Theorem C13_unnormalised_linear_eri_2 :
+  forall (F : Type) (K : Fops F),
+  is_field K ->
+  forall (s1 s2 s3 s4 : shell F) (C C1 C2 : list (list F)) (c1 c2 : F)
+  (m1 i1 m2 i2 m3 i3 m4 i4 : nat),
+  (i1 < ncomp s1)%nat ->
+  (i2 < ncomp s2)%nat ->
+  (i3 < ncomp s3)%nat ->
+  (i4 < ncomp s4)%nat ->
+  sum_lin K m2 c1 c2 (combine (s_exps s2) C) (combine (s_exps s2) C1) (combine (s_exps s2) C2) ->
+  nseg (set_coeffs s2 C1) = nseg (set_coeffs s2 C) ->
+  nseg (set_coeffs s2 C2) = nseg (set_coeffs s2 C) ->
+  (m1 < nseg s1)%nat ->
+  (m2 < nseg (set_coeffs s2 C))%nat ->
+  (m3 < nseg s3)%nat ->
+  (m4 < nseg s4)%nat ->
+  nth8 K m1 i1 m2 i2 m3 i3 m4 i4 (eri_block K s1 (set_coeffs s2 C) s3 s4) =
+  fadd K (fmul K c1 (nth8 K m1 i1 m2 i2 m3 i3 m4 i4 (eri_block K s1 (set_coeffs s2 C1) s3 s4)))
+  (fmul K c2 (nth8 K m1 i1 m2 i2 m3 i3 m4 i4 (eri_block K s1 (set_coeffs s2 C2) s3 s4))).
+Proof. exact (@eri_block_lin_2). Qed.
+Print Assumptions C13_unnormalised_linear_eri_2.
+
+Theorem C13_unnormalised_linear_eri_3 :
+  forall (F : Type) (K : Fops F),
+  is_field K ->
+  forall (s1 s2 s3 s4 : shell F) (C C1 C2 : list (list F)) (c1 c2 : F)
+  (m1 i1 m2 i2 m3 i3 m4 i4 : nat),
+  (i1 < ncomp s1)%nat ->
+  (i2 < ncomp s2)%nat ->
+  (i3 < ncomp s3)%nat ->
+  (i4 < ncomp s4)%nat ->
+  sum_lin K m3 c1 c2 (combine (s_exps s3) C) (combine (s_exps s3) C1) (combine (s_exps s3) C2) ->
+  nseg (set_coeffs s3 C1) = nseg (set_coeffs s3 C) ->
+  nseg (set_coeffs s3 C2) = nseg (set_coeffs s3 C) ->
+  (m1 < nseg s1)%nat ->
+  (m2 < nseg s2)%nat ->
+  (m3 < nseg (set_coeffs s3 C))%nat ->
+  (m4 < nseg s4)%nat ->
+  nth8 K m1 i1 m2 i2 m3 i3 m4 i4 (eri_block K s1 s2 (set_coeffs s3 C) s4) =
+  fadd K (fmul K c1 (nth8 K m1 i1 m2 i2 m3 i3 m4 i4 (eri_block K s1 s2 (set_coeffs s3 C1) s4)))
+  (fmul K c2 (nth8 K m1 i1 m2 i2 m3 i3 m4 i4 (eri_block K s1 s2 (set_coeffs s3 C2) s4))).
+Proof. exact (@eri_block_lin_3). Qed.
+Print Assumptions C13_unnormalised_linear_eri_3.
+
+Theorem C13_unnormalised_linear_eri_4 :
+  forall (F : Type) (K : Fops F),
+  is_field K ->
+  forall (s1 s2 s3 s4 : shell F) (C C1 C2 : list (list F)) (c1 c2 : F)
+  (m1 i1 m2 i2 m3 i3 m4 i4 : nat),
+  (i1 < ncomp s1)%nat ->
+  (i2 < ncomp s2)%nat ->
+  (i3 < ncomp s3)%nat ->
+  (i4 < ncomp s4)%nat ->
+  sum_lin K m4 c1 c2 (combine (s_exps s4) C) (combine (s_exps s4) C1) (combine (s_exps s4) C2) ->
+  nseg (set_coeffs s4 C1) = nseg (set_coeffs s4 C) ->
+  nseg (set_coeffs s4 C2) = nseg (set_coeffs s4 C) ->
+  (m1 < nseg s1)%nat ->
+  (m2 < nseg s2)%nat ->
+  (m3 < nseg s3)%nat ->
+  (m4 < nseg (set_coeffs s4 C))%nat ->
+  nth8 K m1 i1 m2 i2 m3 i3 m4 i4 (eri_block K s1 s2 s3 (set_coeffs s4 C)) =
+  fadd K (fmul K c1 (nth8 K m1 i1 m2 i2 m3 i3 m4 i4 (eri_block K s1 s2 s3 (set_coeffs s4 C1))))
+  (fmul K c2 (nth8 K m1 i1 m2 i2 m3 i3 m4 i4 (eri_block K s1 s2 s3 (set_coeffs s4 C2)))).
+Proof. exact (@eri_block_lin_4). Qed.
+Print Assumptions C13_unnormalised_linear_eri_4.
+
+Theorem C13_column_scale_one_elec_unnormalised_a :
+  forall (F : Type) (K : Fops F),
+  is_field K ->
+  forall (Cx Cy Cz : F) (sa sb : shell F) (m0 : nat) (k : F) (ma ia mb ib : nat),
+  (ma < nseg sa)%nat ->
+  (ia < ncomp sa)%nat ->
+  (mb < nseg sb)%nat ->
+  (ib < ncomp sb)%nat ->
+  nth4' K ma ia mb ib (one_elec_point K Cx Cy Cz (scale_col K sa m0 k) sb) =
+  fmul K (colfac K m0 k ma) (nth4' K ma ia mb ib (one_elec_point K Cx Cy Cz sa sb)).
+Proof. exact (@oe_scale_col_unnormalised_a). Qed.
+Print Assumptions C13_column_scale_one_elec_unnormalised_a.
+
+Theorem C13_column_scale_one_elec_unnormalised_b :
+  forall (F : Type) (K : Fops F),
+  is_field K ->
+  forall (Cx Cy Cz : F) (sa sb : shell F) (m0 : nat) (k : F) (ma ia mb ib : nat),
+  (ma < nseg sa)%nat ->
+  (ia < ncomp sa)%nat ->
+  (mb < nseg sb)%nat ->
+  (ib < ncomp sb)%nat ->
+  nth4' K ma ia mb ib (one_elec_point K Cx Cy Cz sa (scale_col K sb m0 k)) =
+  fmul K (colfac K m0 k mb) (nth4' K ma ia mb ib (one_elec_point K Cx Cy Cz sa sb)).
+Proof. exact (@oe_scale_col_unnormalised_b). Qed.
+Print Assumptions C13_column_scale_one_elec_unnormalised_b.
+
+(* 5. for the one-electron kernel and the electron-repulsion block (contraction-normalised entries) *)
+Theorem C13_column_scale_one_elec_a :
+  forall (F : Type) (K : Fops F),
+  is_field K ->
+  forall (Cx Cy Cz : F) (sa sb : shell F) (m0 : nat) (k kabs : F) (ma ia mb ib : nat),
+  (forall x : F, fapx K x = x) ->
+  scale_hyps K sa m0 k kabs ->
+  (ma < nseg sa)%nat ->
+  (ia < ncomp sa)%nat ->
+  (mb < nseg sb)%nat ->
+  (ib < ncomp sb)%nat ->
+  oe_nentry K Cx Cy Cz (scale_col K sa m0 k) sb ma ia mb ib =
+  fmul K (colfac K m0 (fdiv K k kabs) ma) (oe_nentry K Cx Cy Cz sa sb ma ia mb ib).
+Proof. exact (@oe_column_scale_a). Qed.
+Print Assumptions C13_column_scale_one_elec_a.
+
+Theorem C13_column_scale_one_elec_b :
+  forall (F : Type) (K : Fops F),
+  is_field K ->
+  forall (Cx Cy Cz : F) (sa sb : shell F) (m0 : nat) (k kabs : F) (ma ia mb ib : nat),
+  (forall x : F, fapx K x = x) ->
+  scale_hyps K sb m0 k kabs ->
+  (ma < nseg sa)%nat ->
+  (ia < ncomp sa)%nat ->
+  (mb < nseg sb)%nat ->
+  (ib < ncomp sb)%nat ->
+  oe_nentry K Cx Cy Cz sa (scale_col K sb m0 k) ma ia mb ib =
+  fmul K (colfac K m0 (fdiv K k kabs) mb) (oe_nentry K Cx Cy Cz sa sb ma ia mb ib).
+Proof. exact (@oe_column_scale_b). Qed.
+Print Assumptions C13_column_scale_one_elec_b.
+
+Theorem C13_column_scale_eri_1 :
+  forall (F : Type) (K : Fops F),
+  is_field K ->
+  forall (s1 s2 s3 s4 : shell F) (m0 : nat) (k kabs : F) (m1 i1 m2 i2 m3 i3 m4 i4 : nat),
+  (forall x : F, fapx K x = x) ->
+  (m1 < nseg s1)%nat ->
+  (i1 < ncomp s1)%nat ->
+  (m2 < nseg s2)%nat ->
+  (i2 < ncomp s2)%nat ->
+  (m3 < nseg s3)%nat ->
+  (i3 < ncomp s3)%nat ->
+  (m4 < nseg s4)%nat ->
+  (i4 < ncomp s4)%nat ->
+  scale_hyps K s1 m0 k kabs ->
+  eri_nentry K (scale_col K s1 m0 k) s2 s3 s4 m1 i1 m2 i2 m3 i3 m4 i4 =
+  fmul K (colfac K m0 (fdiv K k kabs) m1) (eri_nentry K s1 s2 s3 s4 m1 i1 m2 i2 m3 i3 m4 i4).
+Proof. exact (@eri_column_scale_1). Qed.
+Print Assumptions C13_column_scale_eri_1.
+
+Theorem C13_column_scale_eri_2 :
+  forall (F : Type) (K : Fops F),
+  is_field K ->
+  forall (s1 s2 s3 s4 : shell F) (m0 : nat) (k kabs : F) (m1 i1 m2 i2 m3 i3 m4 i4 : nat),
+  (forall x : F, fapx K x = x) ->
+  (m1 < nseg s1)%nat ->
+  (i1 < ncomp s1)%nat ->
+  (m2 < nseg s2)%nat ->
+  (i2 < ncomp s2)%nat ->
+  (m3 < nseg s3)%nat ->
+  (i3 < ncomp s3)%nat ->
+  (m4 < nseg s4)%nat ->
+  (i4 < ncomp s4)%nat ->
+  scale_hyps K s2 m0 k kabs ->
+  eri_nentry K s1 (scale_col K s2 m0 k) s3 s4 m1 i1 m2 i2 m3 i3 m4 i4 =
+  fmul K (colfac K m0 (fdiv K k kabs) m2) (eri_nentry K s1 s2 s3 s4 m1 i1 m2 i2 m3 i3 m4 i4).
+Proof. exact (@eri_column_scale_2). Qed.
+Print Assumptions C13_column_scale_eri_2.
+
+Theorem C13_column_scale_eri_3 :
+  forall (F : Type) (K : Fops F),
+  is_field K ->
+  forall (s1 s2 s3 s4 : shell F) (m0 : nat) (k kabs : F) (m1 i1 m2 i2 m3 i3 m4 i4 : nat),
+  (forall x : F, fapx K x = x) ->
+  (m1 < nseg s1)%nat ->
+  (i1 < ncomp s1)%nat ->
+  (m2 < nseg s2)%nat ->
+  (i2 < ncomp s2)%nat ->
+  (m3 < nseg s3)%nat ->
+  (i3 < ncomp s3)%nat ->
+  (m4 < nseg s4)%nat ->
+  (i4 < ncomp s4)%nat ->
+  scale_hyps K s3 m0 k kabs ->
+  eri_nentry K s1 s2 (scale_col K s3 m0 k) s4 m1 i1 m2 i2 m3 i3 m4 i4 =
+  fmul K (colfac K m0 (fdiv K k kabs) m3) (eri_nentry K s1 s2 s3 s4 m1 i1 m2 i2 m3 i3 m4 i4).
+Proof. exact (@eri_column_scale_3). Qed.
+Print Assumptions C13_column_scale_eri_3.
+
+Theorem C13_column_scale_eri_4 :
+  forall (F : Type) (K : Fops F),
+  is_field K ->
+  forall (s1 s2 s3 s4 : shell F) (m0 : nat) (k kabs : F) (m1 i1 m2 i2 m3 i3 m4 i4 : nat),
+  (forall x : F, fapx K x = x) ->
+  (m1 < nseg s1)%nat ->
+  (i1 < ncomp s1)%nat ->
+  (m2 < nseg s2)%nat ->
+  (i2 < ncomp s2)%nat ->
+  (m3 < nseg s3)%nat ->
+  (i3 < ncomp s3)%nat ->
+  (m4 < nseg s4)%nat ->
+  (i4 < ncomp s4)%nat ->
+  scale_hyps K s4 m0 k kabs ->
+  eri_nentry K s1 s2 s3 (scale_col K s4 m0 k) m1 i1 m2 i2 m3 i3 m4 i4 =
+  fmul K (colfac K m0 (fdiv K k kabs) m4) (eri_nentry K s1 s2 s3 s4 m1 i1 m2 i2 m3 i3 m4 i4).
+Proof. exact (@eri_column_scale_4). Qed.
+Print Assumptions C13_column_scale_eri_4.
 
 (* the hypothesis on the square root holds for the real square root: sqrt(k^2 x) = |k| sqrt x *)
 Theorem C13_sqrt_scale_R :
